@@ -78,6 +78,12 @@ func c15values(rng *rand.Rand, nLimb, nRand int) []c15val {
 		addReg(v, "edge")
 		addReg(new(big.Int).Sub(v, big.NewInt(1)), "edge")
 	}
+	for _, v := range limbNeighbours(r, rng) {
+		addReg(v, "edge") // regular value agrees with r in some limbs (reduced mod r when above)
+	}
+	for _, v := range limbNeighbours(new(big.Int).Rsh(r, 1), rng) {
+		addReg(v, "edge")
+	}
 	// raw-limb edges: also tiny raw limbs
 	for d := int64(0); d <= 2; d++ {
 		add(big.NewInt(d), "edge")
